@@ -300,7 +300,11 @@ class PteraTransformer(NodeTransformer):
 
     def _interact(self, *args):
         varname, key, ann, value, overridable = args
-        if not self.should_instrument(varname, ann):
+        names = [varname]
+        if isinstance(key, ast.Call) and key.args[0].value == "attr":
+            # "obj.attr = value" is selected as "obj.attr"
+            names.append(f"{varname}.{key.args[1].value}")
+        if not any(self.should_instrument(name, ann) for name in names):
             return value if isinstance(value, ast.AST) else ast.Constant(value)
 
         args = [
